@@ -88,7 +88,7 @@ func VerifC08_MatchSignature() {
 	topo.StringLiterals = []string{vxStrN(2)}
 	sig := Signature{ID: "s", Name: "n"}
 	if vxBool() {
-		sig.TopologyHash = "H"
+		sig.TopologyHash = GenerateTopologyHash(topo) // the exact-hash case (realisable natively)
 	} else {
 		sig.TopologyHash = "X"
 	}
